@@ -55,7 +55,9 @@ class Precondition:
 
         else:
             numeric_preconditions = self._simplify_numeric_preconditions(
-                numeric_expressions, decimal_digits
+                numeric_expressions,
+                decimal_digits,
+                is_conjunction=self.binary_operator == "and",
             )
 
         discrete_preconditions.sort()
@@ -218,11 +220,14 @@ class Precondition:
     def _simplify_numeric_preconditions(
         numeric_preconditions: List[NumericalExpressionTree],
         decimal_digits: int = DEFAULT_DECIMAL_DIGITS,
+        is_conjunction: bool = True,
     ) -> List[str]:
         """Simplify the numeric preconditions by eliminating redundant conditions as well as removing redundant preconditions.
 
         :param numeric_preconditions: the numeric preconditions to simplify.
         :param decimal_digits: the number of decimal digits to keep.
+        :param is_conjunction: whether the conditions are joined by "and". Only then may an equality be used to
+            rewrite the other conditions and may a condition that always holds be omitted.
         :return: the simplified numeric preconditions.
         """
         # start by searching for the equality conditions that can be used to eliminate some variables in the other conditions
@@ -234,7 +239,7 @@ class Precondition:
         ]
 
         assumptions = []
-        for equality_condition in equality_conditions:
+        for equality_condition in equality_conditions if is_conjunction else []:
             eliminated_expression = equality_condition.extract_eliminated_expressions()
             if eliminated_expression is None:
                 continue
@@ -252,6 +257,10 @@ class Precondition:
                 )
                 if simplified_equation:
                     simplified_conditions.append(simplified_equation)
+
+                elif not is_conjunction:
+                    # a disjunct that always holds decides the disjunction - it cannot be dropped.
+                    simplified_conditions.append(condition.to_pddl(decimal_digits))
 
                 continue
 
